@@ -13,6 +13,7 @@ import (
 	"sync"
 
 	"github.com/gofiber/fiber/v3"
+	"github.com/valyala/fasthttp"
 )
 
 // ---------------------------------------------------------------------------------------------
@@ -88,6 +89,7 @@ type isoSink struct {
 	probes   int
 	vec      map[string]string // component -> canonical JSON
 	reused   bool
+	reqSeq   uint64            // adaptor drive: number of the request being served (0 = wire drive)
 	holdAt   chan struct{}     // overlap cases: the probe reports that it is parked …
 	release  chan struct{}     // … and waits here
 	ehVec    map[string]string // what the ErrorHandler invoked last observed
@@ -154,16 +156,26 @@ type ptrEntry struct {
 
 // note logs which pooled object serves which request.
 func (s *isoSink) note(c fiber.Ctx) {
+	conn, num := s.identity(c)
+	s.ptrs = append(s.ptrs, ptrEntry{ctxPtr(c), conn, num})
+}
+
+// identity of the request c serves: connection and request number, or — when the requests do not
+// come over connections (adaptor drive) — the sequence number the driver set.
+func (s *isoSink) identity(c fiber.Ctx) (uint64, uint64) {
+	if s.reqSeq != 0 {
+		return ^uint64(0), s.reqSeq
+	}
 	fc := c.RequestCtx()
-	s.ptrs = append(s.ptrs, ptrEntry{ctxPtr(c), fc.ConnID(), fc.ConnRequestNum()})
+	return fc.ConnID(), fc.ConnRequestNum()
 }
 
 // seenBefore: did the object serving c serve another request of this app earlier?
 func (s *isoSink) seenBefore(c fiber.Ctx) bool {
-	fc := c.RequestCtx()
+	conn, num := s.identity(c)
 	me := ctxPtr(c)
 	for _, e := range s.ptrs {
-		if e.ptr == me && (e.conn != fc.ConnID() || e.num != fc.ConnRequestNum()) {
+		if e.ptr == me && (e.conn != conn || e.num != num) {
 			return true
 		}
 	}
@@ -608,6 +620,40 @@ func isoBuild(cfg isoCfg) (*fiber.App, *isoSink) {
 		return c.SendString(fmt.Sprintf("payload %s: %d bytes, %+v, %s", c.Params("id"), len(body), st, errStr(err)))
 	}))
 
+	// a handler that completes / edits what the accessors handed to it (they are its own copies
+	// to use): defaults into the query map, a derived header, a normalised address list
+	app.All("/mutate/:id", w(func(c fiber.Ctx) error {
+		id := c.Params("id")
+		q := c.Queries()
+		if _, ok := q["page"]; !ok {
+			q["page"] = "1-" + id
+		}
+		q["user"] = "u-" + id
+		rq := c.Req().Queries()
+		rq["via-req"] = id
+		h := c.GetReqHeaders()
+		h["X-Derived"] = []string{"derived-" + id}
+		for k := range h {
+			if len(h[k]) > 0 {
+				h[k][0] = "edited-" + id
+			}
+		}
+		rh := c.GetRespHeaders()
+		rh["X-Planned"] = []string{"planned-" + id}
+		ips := c.IPs()
+		for i := range ips {
+			ips[i] = "0.0.0." + strconv.Itoa(i)
+		}
+		ips = append(ips, "ip-of-"+id) //nolint:ineffassign,staticcheck // the handler's own slice
+		sd := c.Subdomains()
+		for i := range sd {
+			sd[i] = "sub-" + id
+		}
+		pm := c.Route().Params
+		_ = pm
+		return c.SendString(fmt.Sprint("mutated ", len(q), len(h), len(rh), len(sd)))
+	}))
+
 	app.Get("/getonly", w(func(c fiber.Ctx) error { return c.SendString("getonly") }))
 
 	// path / method override inside a handler
@@ -777,6 +823,8 @@ func isoBuild(cfg isoCfg) (*fiber.App, *isoSink) {
 			c.Status(200)
 		}
 
+		v["maps-handed-out"] = canon(map[string]any{"queries": c.Queries(), "req-queries": c.Req().Queries(), "req-headers": c.GetReqHeaders(),
+			"resp-headers": c.GetRespHeaders(), "ips": c.IPs(), "subdomains": c.Subdomains(), "subdomains1": c.Subdomains(1)})
 		v["route-path"] = canon(c.Route().Path)
 		v["base-url"] = canon(c.BaseURL())
 		v["method"] = canon(c.Method())
@@ -832,9 +880,37 @@ func isoBuild(cfg isoCfg) (*fiber.App, *isoSink) {
 				rerr = c.Redirect().Back("/fallback-of-probe")
 			case "RR":
 				rerr = c.Redirect().Route("named", fiber.RedirectConfig{Params: fiber.Map{"id": "p7"}, Queries: map[string]string{"from": "probe"}})
+			case "RI":
+				// the request's input goes along (the probe's form has ONE field: the order of
+				// several old inputs in the cookie follows a map)
+				rerr = c.Redirect().With("notice", "probe says hello", 0x21).WithInput().To("/form-again")
 			}
 			rh := c.GetRespHeaders()
-			v["redirect"] = canon(map[string]any{"status": c.Response().StatusCode(), "headers": rh, "err": errStr(rerr)})
+			// the flash cookie this response issues, decoded
+			var issued any = "none"
+			c.Response().Header.VisitAllCookie(func(k, val []byte) {
+				if string(k) != fiber.FlashCookieName {
+					return
+				}
+				var ck fasthttp.Cookie
+				if ck.ParseBytes(val) != nil {
+					issued = "unparsable Set-Cookie"
+					return
+				}
+				ms, ok := decodeFlash(ck.Value())
+				if !ok {
+					issued = "undecodable: " + hexs(ck.Value())
+					return
+				}
+				sort.Slice(ms, func(i, j int) bool {
+					if ms[i].Old != ms[j].Old {
+						return !ms[i].Old
+					}
+					return ms[i].Key+"\x00"+ms[i].Value < ms[j].Key+"\x00"+ms[j].Value
+				})
+				issued = fmt.Sprintf("%+v", ms)
+			})
+			v["redirect"] = canon(map[string]any{"status": c.Response().StatusCode(), "headers": rh, "err": errStr(rerr), "flash-issued": issued})
 		}
 
 		s.vec = v
